@@ -220,6 +220,34 @@ def r4_parallel(ctx):
                 break
             if cur.kind == "Closure":
                 if leaf[1] >= 2:
+                    # a closure that is CALLED by another closure of the run (`let perform = |run, problem| ..; .map(|(r, p)| perform(r, p))`):
+                    # its parameter is the caller's argument
+                    called = []
+                    for h in reach:
+                        for _b2, t2 in h.body.calls():
+                            if (t2["f"].get("trait") or "").startswith("core::ops::function") and len(t2["args"]) == 2:
+                                recv_ = strip(h.body.expr_of_op(t2["args"][0]))
+                                hh = h
+                                for _k in range(4):
+                                    while recv_[0] in ("ref", "deref") and len(recv_) > 1:
+                                        recv_ = strip(recv_[-1])
+                                    if recv_[0] == "field" and hh.kind == "Closure":      # a captured closure: back to where it was created
+                                        lf_, _c, fs_ = origin(recv_)
+                                        cap_ = closure_capture(F, hh, fs_[0]) if lf_ == ("arg", 1) and fs_ else None
+                                        if not cap_:
+                                            break
+                                        hh, recv_ = cap_[0], strip(cap_[1])
+                                        continue
+                                    break
+                                if recv_[:2] == ("agg", "closure") and recv_[2] == cur.key:
+                                    called.append((h, t2))
+                    if len(called) == 1:
+                        h, t2 = called[0]
+                        tup = strip(h.body.expr_of_op(t2["args"][1]))
+                        if tup[0] == "agg" and len(tup) > 2 and isinstance(tup[-1], (list, tuple)) and leaf[1] - 2 < len(tup[-1]):
+                            cur, ex = h, tup[-1][leaf[1] - 2]
+                            why += " <- " + expr_str(ex)
+                            continue
                     top = cur
                     while top.kind == "Closure" and top.parent and F.fn_opt(top.parent) is not None:
                         top = F.fn(top.parent)
